@@ -162,12 +162,13 @@ func main() {
 	points := map[string]int{}
 	for _, rel := range rels {
 		txt, n := instrument(*repo, rel, targets[rel])
-		if rel == "bls_thresholdsign.go" {
-			// redirect the sync import to the scheduler shim
-			if strings.Count(txt, "\t\"sync\"\n") != 1 {
-				die("anchor not found: import \"sync\" in %s", rel)
-			}
+		// redirect the sync import to the scheduler shim: required in bls_thresholdsign.go (the
+		// documented-thread-safe object), and applied to any other instrumented file that has one
+		// (a change that adds locking to a "read-only" path is then explored with modelled blocking)
+		if n := strings.Count(txt, "\t\"sync\"\n"); n == 1 {
 			txt = strings.Replace(txt, "\t\"sync\"\n", "\tsync "+shimImport+"\n", 1)
+		} else if rel == "bls_thresholdsign.go" {
+			die("anchor not found: import \"sync\" in %s", rel)
 		}
 		dst := filepath.Join(*outDir, rel)
 		old, _ := os.ReadFile(dst)
